@@ -667,10 +667,15 @@ pub(crate) mod convert {
             Section: read::UnwindSection<R>,
             Section::Offset: read::UnwindOffset<usize>,
         {
+            // The writer only supports alignment factors that fit in a byte.
+            let code_alignment_factor = u8::try_from(from_cie.code_alignment_factor())
+                .map_err(|_| ConvertError::UnsupportedCfiInstruction)?;
+            let data_alignment_factor = i8::try_from(from_cie.data_alignment_factor())
+                .map_err(|_| ConvertError::UnsupportedCfiInstruction)?;
             let mut cie = CommonInformationEntry::new(
                 from_cie.encoding(),
-                from_cie.code_alignment_factor() as u8,
-                from_cie.data_alignment_factor() as i8,
+                code_alignment_factor,
+                data_alignment_factor,
                 from_cie.return_address_register(),
             );
 
@@ -721,7 +726,8 @@ pub(crate) mod convert {
         {
             let address =
                 convert_address(from_fde.initial_address()).ok_or(ConvertError::InvalidAddress)?;
-            let length = from_fde.len() as u32;
+            let length =
+                u32::try_from(from_fde.len()).map_err(|_| ConvertError::InvalidAddress)?;
             let mut fde = FrameDescriptionEntry::new(address, length);
 
             match from_fde.lsda() {
@@ -774,35 +780,50 @@ pub(crate) mod convert {
                     &NoConvertDebugInfoRef,
                 )
             };
-            // TODO: validate integer type conversions
+            // Offsets that do not fit the writer's types cannot be converted.
+            let unsupported = |_| ConvertError::UnsupportedCfiInstruction;
+            let convert_offset = |offset: u64| i32::try_from(offset).map_err(unsupported);
+            let convert_factored_offset = |factored_offset: i64| {
+                factored_offset
+                    .checked_mul(from_cie.data_alignment_factor())
+                    .ok_or(ConvertError::UnsupportedCfiInstruction)
+                    .and_then(|offset| i32::try_from(offset).map_err(unsupported))
+            };
+            let convert_unsigned_factored_offset = |factored_offset: u64| {
+                i64::try_from(factored_offset)
+                    .map_err(unsupported)
+                    .and_then(convert_factored_offset)
+            };
             Ok(Some(match from_instruction {
                 read::CallFrameInstruction::SetLoc { .. } => {
                     return Err(ConvertError::UnsupportedCfiInstruction);
                 }
                 read::CallFrameInstruction::AdvanceLoc { delta } => {
-                    *offset += delta * from_cie.code_alignment_factor() as u32;
+                    *offset = u32::try_from(from_cie.code_alignment_factor())
+                        .ok()
+                        .and_then(|factor| delta.checked_mul(factor))
+                        .and_then(|delta| offset.checked_add(delta))
+                        .ok_or(ConvertError::UnsupportedCfiInstruction)?;
                     return Ok(None);
                 }
                 read::CallFrameInstruction::DefCfa { register, offset } => {
-                    CallFrameInstruction::Cfa(register, offset as i32)
+                    CallFrameInstruction::Cfa(register, convert_offset(offset)?)
                 }
                 read::CallFrameInstruction::DefCfaSf {
                     register,
                     factored_offset,
                 } => {
-                    let offset = factored_offset * from_cie.data_alignment_factor();
-                    CallFrameInstruction::Cfa(register, offset as i32)
+                    CallFrameInstruction::Cfa(register, convert_factored_offset(factored_offset)?)
                 }
                 read::CallFrameInstruction::DefCfaRegister { register } => {
                     CallFrameInstruction::CfaRegister(register)
                 }
 
                 read::CallFrameInstruction::DefCfaOffset { offset } => {
-                    CallFrameInstruction::CfaOffset(offset as i32)
+                    CallFrameInstruction::CfaOffset(convert_offset(offset)?)
                 }
                 read::CallFrameInstruction::DefCfaOffsetSf { factored_offset } => {
-                    let offset = factored_offset * from_cie.data_alignment_factor();
-                    CallFrameInstruction::CfaOffset(offset as i32)
+                    CallFrameInstruction::CfaOffset(convert_factored_offset(factored_offset)?)
                 }
                 read::CallFrameInstruction::DefCfaExpression { expression } => {
                     let expression = expression.get(frame)?;
@@ -818,29 +839,30 @@ pub(crate) mod convert {
                     register,
                     factored_offset,
                 } => {
-                    let offset = factored_offset as i64 * from_cie.data_alignment_factor();
-                    CallFrameInstruction::Offset(register, offset as i32)
+                    let offset = convert_unsigned_factored_offset(factored_offset)?;
+                    CallFrameInstruction::Offset(register, offset)
                 }
                 read::CallFrameInstruction::OffsetExtendedSf {
                     register,
                     factored_offset,
                 } => {
-                    let offset = factored_offset * from_cie.data_alignment_factor();
-                    CallFrameInstruction::Offset(register, offset as i32)
+                    CallFrameInstruction::Offset(register, convert_factored_offset(factored_offset)?)
                 }
                 read::CallFrameInstruction::ValOffset {
                     register,
                     factored_offset,
                 } => {
-                    let offset = factored_offset as i64 * from_cie.data_alignment_factor();
-                    CallFrameInstruction::ValOffset(register, offset as i32)
+                    let offset = convert_unsigned_factored_offset(factored_offset)?;
+                    CallFrameInstruction::ValOffset(register, offset)
                 }
                 read::CallFrameInstruction::ValOffsetSf {
                     register,
                     factored_offset,
                 } => {
-                    let offset = factored_offset * from_cie.data_alignment_factor();
-                    CallFrameInstruction::ValOffset(register, offset as i32)
+                    CallFrameInstruction::ValOffset(
+                        register,
+                        convert_factored_offset(factored_offset)?,
+                    )
                 }
                 read::CallFrameInstruction::Register {
                     dest_register,
@@ -866,7 +888,7 @@ pub(crate) mod convert {
                 read::CallFrameInstruction::RememberState => CallFrameInstruction::RememberState,
                 read::CallFrameInstruction::RestoreState => CallFrameInstruction::RestoreState,
                 read::CallFrameInstruction::ArgsSize { size } => {
-                    CallFrameInstruction::ArgsSize(size as u32)
+                    CallFrameInstruction::ArgsSize(u32::try_from(size).map_err(unsupported)?)
                 }
                 read::CallFrameInstruction::NegateRaState => CallFrameInstruction::NegateRaState,
                 read::CallFrameInstruction::Nop => return Ok(None),
